@@ -1149,6 +1149,13 @@ class Interp:
             off = v.get('off', 0)
             pointee = self.types.pointee(ty) if 'ptr' in v else tyid
             val = self.alloc_value(key, off, pointee, v.get('len'))
+            if val[0] == 'T' and o.get('promoted'):
+                # a promoted constant whose allocation we cannot decode (struct layout unknown):
+                # interpret the promoted body instead
+                pb = self.prog.bodies.get(o['promoted'])
+                pv = self.eval_promoted(pb) if pb is not None else None
+                if pv is not None:
+                    return pv
             if 'alloc' in v:
                 return val
             cell = ('k', 'alloc', key, off)
@@ -1256,7 +1263,12 @@ class Interp:
             fr = Frame(900, pb, (), self.pathid(('promoted', pb['id'])), self.info(pb))
             outs = self.run_body(fr, [st], quiet=True)
             if len(outs) == 1:
-                return outs[0][1]
+                st2, v = outs[0]
+                if v[0] == 'R' and v[1] is not None and v[1][0] == 900:
+                    # reference to a local of the promoted body: intern the pointee as a constant
+                    pv = self.deep_resolve(st2, self.read_lv(st2, (v[1], v[2]), None))
+                    return ('Rk', ('k', 'promoted', pb['id']), pv, None)
+                return v
         except AnalysisError:
             pass
         return None
@@ -1695,6 +1707,13 @@ class InterpOps:
             if not self._bool_rf(st, t, truth):
                 return False
             return self.assume_cmp(st, op, t[1], t[2])
+        if op == 'inrange':
+            # lo <= x <= hi (or < hi): true gives both comparisons, false only the flag
+            if not self._bool_rf(st, t, truth):
+                return False
+            if truth:
+                return self.assume_cmp(st, 'Ge', t[1], t[2]) and self.assume_cmp(st, 'Le' if t[4][1] else 'Lt', t[1], t[3])
+            return True
         return self._bool_rf(st, t, truth)
 
     def _bool_rf(self, st, t, truth):
@@ -1834,7 +1853,7 @@ class InterpOps:
                     # wrapping semantics of the unchecked MIR operator
                     return mk_int(lo_t, hi_t)
                 lo, hi = max(lo, lo_t), min(hi, hi_t)
-            t = mkterm(base, a[4], b[4])
+            t = mkterm(base, a[4], b[4]) or (T('o', self.site(frame, bb, idx)) if lo != hi else None)
             return self.reg(mk_int(lo, hi, zeros, t))
         if a[0] == 'F' and b[0] == 'F':
             bits = ty['bits'] if ty and ty['k'] == 'float' else 64
@@ -1850,7 +1869,7 @@ class InterpOps:
             res = float_binop(op, a, b, bits)
             if res is None:
                 return ('T', tyid, None)
-            t = mkterm(op, a[4] or self._fconst_term(a), b[4] or self._fconst_term(b))
+            t = mkterm(op, a[4] or self._fconst_term(a), b[4] or self._fconst_term(b)) or T('o', self.site(frame, bb, idx))
             return self.reg((res[0], res[1], res[2], res[3], t))
         # pointer / unknown comparisons
         dt = None
@@ -2747,7 +2766,7 @@ class Engine(Interp, InterpOps, CallMixin, ZoneMixin):
             if t not in used and not alive(t):
                 del st.rf[t]
         for e in list(st.erf):
-            if e not in eused:
+            if e not in eused and not (e[0] == 'e' and alive(('o', e[1]))):
                 del st.erf[e]
         if st.facts:
             nf = frozenset(f for f in st.facts
@@ -3109,7 +3128,7 @@ class Engine(Interp, InterpOps, CallMixin, ZoneMixin):
             return True
         if term[0] == 'discr':
             return self.narrow_discr(st, term, {val}, True)
-        if term[0] in CMPS or term[0] in ('And', 'Or', 'Not'):
+        if term[0] in CMPS or term[0] in ('And', 'Or', 'Not', 'inrange'):
             return self.assume(st, term, val != 0)
         for f in st.facts:
             if f[0] == 'Ne' and f[1] is term and f[2] == ('c', val):
